@@ -194,6 +194,8 @@ impl<'a, 'r, 'o, 'd, 'i, 'c> Subject<'a, 'r, 'o, 'd, 'i, 'c> {
     }
 
     pub fn parse_inline(&mut self, node: &'a AstNode<'a>) -> bool {
+        #[cfg(comrak_verif)]
+        crate::verif::bump(2);
         let c = match self.peek_char() {
             None => return false,
             Some(ch) => *ch as char,
@@ -418,6 +420,8 @@ impl<'a, 'r, 'o, 'd, 'i, 'c> Subject<'a, 'r, 'o, 'd, 'i, 'c> {
         }
 
         while let Some(c) = closer {
+            #[cfg(comrak_verif)]
+            crate::verif::bump(5);
             if c.can_close {
                 // Each time through the outer `closer` loop we reset the opener
                 // to the element below the closer, and search down the stack
@@ -450,6 +454,8 @@ impl<'a, 'r, 'o, 'd, 'i, 'c> Subject<'a, 'r, 'o, 'd, 'i, 'c> {
                 // failed to find, avoiding repeatedly rescanning the bottom of
                 // the stack, using the openers_bottom array.
                 while opener.map_or(false, |o| o.position >= openers_bottom[ix]) {
+                    #[cfg(comrak_verif)]
+                    crate::verif::bump(5);
                     let o = opener.unwrap();
                     if o.can_open && o.delim_char == c.delim_char {
                         // This is a bit convoluted; see points 9 and 10 here:
@@ -589,6 +595,8 @@ impl<'a, 'r, 'o, 'd, 'i, 'c> Subject<'a, 'r, 'o, 'd, 'i, 'c> {
 
     #[inline]
     pub fn peek_char(&self) -> Option<&u8> {
+        #[cfg(comrak_verif)]
+        crate::verif::bump(11);
         self.peek_char_n(0)
     }
 
@@ -605,6 +613,8 @@ impl<'a, 'r, 'o, 'd, 'i, 'c> Subject<'a, 'r, 'o, 'd, 'i, 'c> {
 
     fn find_special_char(&self) -> usize {
         for n in self.pos..self.input.len() {
+            #[cfg(comrak_verif)]
+            crate::verif::bump(2);
             if self.special_chars[self.input[n] as usize] {
                 if self.input[n] == b'^' && self.within_brackets {
                     // NO OP
@@ -679,6 +689,8 @@ impl<'a, 'r, 'o, 'd, 'i, 'c> Subject<'a, 'r, 'o, 'd, 'i, 'c> {
     }
 
     fn scan_to_closing_backtick(&mut self, openticklength: usize) -> Option<usize> {
+        #[cfg(comrak_verif)]
+        crate::verif::bump(3);
         if openticklength > MAXBACKTICKS {
             return None;
         }
@@ -689,6 +701,8 @@ impl<'a, 'r, 'o, 'd, 'i, 'c> Subject<'a, 'r, 'o, 'd, 'i, 'c> {
 
         loop {
             while self.peek_char().map_or(false, |&c| c != b'`') {
+                #[cfg(comrak_verif)]
+                crate::verif::bump(3);
                 self.pos += 1;
             }
             if self.pos >= self.input.len() {
@@ -696,6 +710,8 @@ impl<'a, 'r, 'o, 'd, 'i, 'c> Subject<'a, 'r, 'o, 'd, 'i, 'c> {
                 return None;
             }
             let numticks = self.take_while(b'`');
+            #[cfg(comrak_verif)]
+            crate::verif::add(3, numticks);
             if numticks <= MAXBACKTICKS {
                 self.backticks[numticks] = self.pos - numticks;
             }
@@ -750,8 +766,12 @@ impl<'a, 'r, 'o, 'd, 'i, 'c> Subject<'a, 'r, 'o, 'd, 'i, 'c> {
 
         loop {
             while self.peek_char().map_or(false, |&c| c != b'$') {
+                #[cfg(comrak_verif)]
+                crate::verif::bump(4);
                 self.pos += 1;
             }
+            #[cfg(comrak_verif)]
+            crate::verif::bump(4);
 
             if self.pos >= self.input.len() {
                 return None;
@@ -788,8 +808,12 @@ impl<'a, 'r, 'o, 'd, 'i, 'c> Subject<'a, 'r, 'o, 'd, 'i, 'c> {
 
         loop {
             while self.peek_char().map_or(false, |&c| c != b'$') {
+                #[cfg(comrak_verif)]
+                crate::verif::bump(4);
                 self.pos += 1;
             }
+            #[cfg(comrak_verif)]
+            crate::verif::bump(4);
 
             if self.pos >= self.input.len() {
                 return None;
@@ -1475,6 +1499,8 @@ impl<'a, 'r, 'o, 'd, 'i, 'c> Subject<'a, 'r, 'o, 'd, 'i, 'c> {
     }
 
     fn handle_close_bracket(&mut self) -> Option<&'a AstNode<'a>> {
+        #[cfg(comrak_verif)]
+        crate::verif::bump(6);
         self.pos += 1;
         let initial_pos = self.pos;
 
@@ -1746,6 +1772,8 @@ impl<'a, 'r, 'o, 'd, 'i, 'c> Subject<'a, 'r, 'o, 'd, 'i, 'c> {
         let mut length = 0;
         let mut c = 0;
         while unwrap_into_copy(self.peek_char(), &mut c) && c != b'[' && c != b']' {
+            #[cfg(comrak_verif)]
+            crate::verif::bump(6);
             if c == b'\\' {
                 self.pos += 1;
                 length += 1;
